@@ -443,20 +443,20 @@ pub enum Slot<'a> {
     Count(&'a mut dyn Growable),
 }
 
-pub type Visitor<'v> = dyn FnMut(Slot<'_>, Class) + 'v;
+pub type Visitor<'v> = dyn FnMut(Slot<'_>, Class, &'static str) + 'v;
 
 fn visit_fields(fields: &mut Vec<Field>, f: &mut Visitor<'_>) {
-    f(Slot::Count(fields), Class::Count);
+    f(Slot::Count(fields), Class::Count, "type/fields.len");
     for x in fields.iter_mut() {
-        f(Slot::U32(&mut x.name_idx), Class::StrIdx);
-        f(Slot::U32(&mut x.type_id), Class::TypeIdx);
+        f(Slot::U32(&mut x.name_idx), Class::StrIdx, "type/field.name_idx");
+        f(Slot::U32(&mut x.type_id), Class::TypeIdx, "type/field.type_id");
     }
 }
 
-fn visit_u32s(xs: &mut Vec<u32>, class: Class, f: &mut Visitor<'_>) {
-    f(Slot::Count(xs), Class::Count);
+fn visit_u32s(xs: &mut Vec<u32>, class: Class, site_len: &'static str, site_elem: &'static str, f: &mut Visitor<'_>) {
+    f(Slot::Count(xs), Class::Count, site_len);
     for x in xs.iter_mut() {
-        f(Slot::U32(x), class);
+        f(Slot::U32(x), class, site_elem);
     }
 }
 
@@ -465,169 +465,169 @@ pub fn visit(m: &mut BytecodeModule, f: &mut Visitor<'_>) {
     for s in m.sections.iter_mut() {
         match &mut s.data {
             SectionData::StringTable(t) | SectionData::DebugStringTable(t) => {
-                f(Slot::Count(&mut t.entries), Class::Count);
+                f(Slot::Count(&mut t.entries), Class::Count, "StringTable/t.entries");
             }
             SectionData::TypeTable(t) => {
-                f(Slot::Count(&mut t.entries), Class::Count);
+                f(Slot::Count(&mut t.entries), Class::Count, "TypeTable/t.entries");
                 for e in t.entries.iter_mut() {
-                    f(Slot::TypeKind(&mut e.kind), Class::Kind);
-                    f(Slot::Opt(&mut e.name_idx), Class::StrIdx);
+                    f(Slot::TypeKind(&mut e.kind), Class::Kind, "TypeTable/e.kind");
+                    f(Slot::Opt(&mut e.name_idx), Class::StrIdx, "TypeTable/e.name_idx");
                     match &mut e.data {
                         TypeData::Primitive { prim_id, max_length } => {
-                            f(Slot::U16(prim_id), Class::Other);
-                            f(Slot::U16(max_length), Class::Other);
+                            f(Slot::U16(prim_id), Class::Other, "TypeTable/prim_id");
+                            f(Slot::U16(max_length), Class::Other, "TypeTable/max_length");
                         }
                         TypeData::Array { elem_type_id, dims } => {
-                            f(Slot::U32(elem_type_id), Class::TypeIdx);
-                            f(Slot::Count(dims), Class::Count);
+                            f(Slot::U32(elem_type_id), Class::TypeIdx, "TypeTable/elem_type_id");
+                            f(Slot::Count(dims), Class::Count, "TypeTable/dims");
                             for d in dims.iter_mut() {
-                                f(Slot::I64(&mut d.0), Class::Bound);
-                                f(Slot::I64(&mut d.1), Class::Bound);
+                                f(Slot::I64(&mut d.0), Class::Bound, "TypeTable/d.0");
+                                f(Slot::I64(&mut d.1), Class::Bound, "TypeTable/d.1");
                             }
                         }
                         TypeData::Struct { fields } | TypeData::Union { fields } => visit_fields(fields, f),
                         TypeData::Enum { base_type_id, variants } => {
-                            f(Slot::U32(base_type_id), Class::TypeIdx);
-                            f(Slot::Count(variants), Class::Count);
+                            f(Slot::U32(base_type_id), Class::TypeIdx, "TypeTable/base_type_id");
+                            f(Slot::Count(variants), Class::Count, "TypeTable/variants");
                             for v in variants.iter_mut() {
-                                f(Slot::U32(&mut v.name_idx), Class::StrIdx);
-                                f(Slot::I64(&mut v.value), Class::Other);
+                                f(Slot::U32(&mut v.name_idx), Class::StrIdx, "TypeTable/v.name_idx");
+                                f(Slot::I64(&mut v.value), Class::Other, "TypeTable/v.value");
                             }
                         }
                         TypeData::Alias { target_type_id } | TypeData::Reference { target_type_id } => {
-                            f(Slot::U32(target_type_id), Class::TypeIdx);
+                            f(Slot::U32(target_type_id), Class::TypeIdx, "TypeTable/target_type_id");
                         }
                         TypeData::Subrange { base_type_id, lower, upper } => {
-                            f(Slot::U32(base_type_id), Class::TypeIdx);
-                            f(Slot::I64(lower), Class::Bound);
-                            f(Slot::I64(upper), Class::Bound);
+                            f(Slot::U32(base_type_id), Class::TypeIdx, "TypeTable/base_type_id");
+                            f(Slot::I64(lower), Class::Bound, "TypeTable/lower");
+                            f(Slot::I64(upper), Class::Bound, "TypeTable/upper");
                         }
-                        TypeData::Pou { pou_id } => f(Slot::U32(pou_id), Class::PouId),
+                        TypeData::Pou { pou_id } => f(Slot::U32(pou_id), Class::PouId, "TypeTable/pou_id"),
                         TypeData::Interface { methods } => {
-                            f(Slot::Count(methods), Class::Count);
+                            f(Slot::Count(methods), Class::Count, "TypeTable/methods");
                             for me in methods.iter_mut() {
-                                f(Slot::U32(&mut me.name_idx), Class::StrIdx);
-                                f(Slot::U32(&mut me.slot), Class::Other);
+                                f(Slot::U32(&mut me.name_idx), Class::StrIdx, "TypeTable/me.name_idx");
+                                f(Slot::U32(&mut me.slot), Class::Other, "TypeTable/me.slot");
                             }
                         }
                     }
                 }
             }
             SectionData::ConstPool(p) => {
-                f(Slot::Count(&mut p.entries), Class::Count);
+                f(Slot::Count(&mut p.entries), Class::Count, "ConstPool/p.entries");
                 for e in p.entries.iter_mut() {
-                    f(Slot::U32(&mut e.type_id), Class::TypeIdx);
+                    f(Slot::U32(&mut e.type_id), Class::TypeIdx, "ConstPool/e.type_id");
                 }
             }
             SectionData::RefTable(t) => {
-                f(Slot::Count(&mut t.entries), Class::Count);
+                f(Slot::Count(&mut t.entries), Class::Count, "RefTable/t.entries");
                 for e in t.entries.iter_mut() {
-                    f(Slot::RefLoc(&mut e.location), Class::Kind);
-                    f(Slot::U32(&mut e.owner_id), Class::Other);
-                    f(Slot::U32(&mut e.offset), Class::Other);
-                    f(Slot::Count(&mut e.segments), Class::Count);
+                    f(Slot::RefLoc(&mut e.location), Class::Kind, "RefTable/e.location");
+                    f(Slot::U32(&mut e.owner_id), Class::Other, "RefTable/e.owner_id");
+                    f(Slot::U32(&mut e.offset), Class::Other, "RefTable/e.offset");
+                    f(Slot::Count(&mut e.segments), Class::Count, "RefTable/e.segments");
                     for seg in e.segments.iter_mut() {
                         match seg {
                             RefSegment::Index(is) => {
-                                f(Slot::Count(is), Class::Count);
+                                f(Slot::Count(is), Class::Count, "RefTable/is");
                                 for i in is.iter_mut() {
-                                    f(Slot::I64(i), Class::Other);
+                                    f(Slot::I64(i), Class::Other, "RefTable/i");
                                 }
                             }
-                            RefSegment::Field { name_idx } => f(Slot::U32(name_idx), Class::StrIdx),
+                            RefSegment::Field { name_idx } => f(Slot::U32(name_idx), Class::StrIdx, "RefTable/name_idx"),
                         }
                     }
                 }
             }
             SectionData::PouIndex(ix) => {
-                f(Slot::Count(&mut ix.entries), Class::Count);
+                f(Slot::Count(&mut ix.entries), Class::Count, "PouIndex/ix.entries");
                 for e in ix.entries.iter_mut() {
-                    f(Slot::U32(&mut e.id), Class::PouId);
-                    f(Slot::U32(&mut e.name_idx), Class::StrIdx);
-                    f(Slot::PouKind(&mut e.kind), Class::Kind);
-                    f(Slot::U32(&mut e.code_offset), Class::CodeOff);
-                    f(Slot::U32(&mut e.code_length), Class::CodeLen);
-                    f(Slot::U32(&mut e.local_ref_start), Class::RefIdx);
-                    f(Slot::U32(&mut e.local_ref_count), Class::Other);
-                    f(Slot::Opt(&mut e.return_type_id), Class::TypeIdx);
-                    f(Slot::Opt(&mut e.owner_pou_id), Class::PouId);
-                    f(Slot::Count(&mut e.params), Class::Count);
+                    f(Slot::U32(&mut e.id), Class::PouId, "PouIndex/e.id");
+                    f(Slot::U32(&mut e.name_idx), Class::StrIdx, "PouIndex/e.name_idx");
+                    f(Slot::PouKind(&mut e.kind), Class::Kind, "PouIndex/e.kind");
+                    f(Slot::U32(&mut e.code_offset), Class::CodeOff, "PouIndex/e.code_offset");
+                    f(Slot::U32(&mut e.code_length), Class::CodeLen, "PouIndex/e.code_length");
+                    f(Slot::U32(&mut e.local_ref_start), Class::RefIdx, "PouIndex/e.local_ref_start");
+                    f(Slot::U32(&mut e.local_ref_count), Class::Other, "PouIndex/e.local_ref_count");
+                    f(Slot::Opt(&mut e.return_type_id), Class::TypeIdx, "PouIndex/e.return_type_id");
+                    f(Slot::Opt(&mut e.owner_pou_id), Class::PouId, "PouIndex/e.owner_pou_id");
+                    f(Slot::Count(&mut e.params), Class::Count, "PouIndex/e.params");
                     for p in e.params.iter_mut() {
-                        f(Slot::U32(&mut p.name_idx), Class::StrIdx);
-                        f(Slot::U32(&mut p.type_id), Class::TypeIdx);
-                        f(Slot::U8(&mut p.direction), Class::Other);
-                        f(Slot::Opt(&mut p.default_const_idx), Class::ConstIdx);
+                        f(Slot::U32(&mut p.name_idx), Class::StrIdx, "PouIndex/p.name_idx");
+                        f(Slot::U32(&mut p.type_id), Class::TypeIdx, "PouIndex/p.type_id");
+                        f(Slot::U8(&mut p.direction), Class::Other, "PouIndex/p.direction");
+                        f(Slot::Opt(&mut p.default_const_idx), Class::ConstIdx, "PouIndex/p.default_const_idx");
                     }
                     if let Some(cm) = &mut e.class_meta {
-                        f(Slot::Opt(&mut cm.parent_pou_id), Class::PouId);
-                        f(Slot::Count(&mut cm.interfaces), Class::Count);
+                        f(Slot::Opt(&mut cm.parent_pou_id), Class::PouId, "PouIndex/cm.parent_pou_id");
+                        f(Slot::Count(&mut cm.interfaces), Class::Count, "PouIndex/cm.interfaces");
                         for i in cm.interfaces.iter_mut() {
-                            f(Slot::U32(&mut i.interface_type_id), Class::TypeIdx);
-                            visit_u32s(&mut i.vtable_slots, Class::Other, f);
+                            f(Slot::U32(&mut i.interface_type_id), Class::TypeIdx, "PouIndex/i.interface_type_id");
+                            visit_u32s(&mut i.vtable_slots, Class::Other, "pou/vtable_slots.len", "pou/vtable_slot", f);
                         }
-                        f(Slot::Count(&mut cm.methods), Class::Count);
+                        f(Slot::Count(&mut cm.methods), Class::Count, "PouIndex/cm.methods");
                         for me in cm.methods.iter_mut() {
-                            f(Slot::U32(&mut me.name_idx), Class::StrIdx);
-                            f(Slot::U32(&mut me.pou_id), Class::PouId);
-                            f(Slot::U32(&mut me.vtable_slot), Class::Other);
-                            f(Slot::U8(&mut me.access), Class::Other);
-                            f(Slot::U8(&mut me.flags), Class::Other);
+                            f(Slot::U32(&mut me.name_idx), Class::StrIdx, "PouIndex/me.name_idx");
+                            f(Slot::U32(&mut me.pou_id), Class::PouId, "PouIndex/me.pou_id");
+                            f(Slot::U32(&mut me.vtable_slot), Class::Other, "PouIndex/me.vtable_slot");
+                            f(Slot::U8(&mut me.access), Class::Other, "PouIndex/me.access");
+                            f(Slot::U8(&mut me.flags), Class::Other, "PouIndex/me.flags");
                         }
                     }
                 }
             }
             SectionData::ResourceMeta(rm) => {
-                f(Slot::Count(&mut rm.resources), Class::Count);
+                f(Slot::Count(&mut rm.resources), Class::Count, "ResourceMeta/rm.resources");
                 for r in rm.resources.iter_mut() {
-                    f(Slot::U32(&mut r.name_idx), Class::StrIdx);
-                    f(Slot::U32(&mut r.inputs_size), Class::ImageSize);
-                    f(Slot::U32(&mut r.outputs_size), Class::ImageSize);
-                    f(Slot::U32(&mut r.memory_size), Class::ImageSize);
-                    f(Slot::Count(&mut r.tasks), Class::Count);
+                    f(Slot::U32(&mut r.name_idx), Class::StrIdx, "ResourceMeta/r.name_idx");
+                    f(Slot::U32(&mut r.inputs_size), Class::ImageSize, "ResourceMeta/r.inputs_size");
+                    f(Slot::U32(&mut r.outputs_size), Class::ImageSize, "ResourceMeta/r.outputs_size");
+                    f(Slot::U32(&mut r.memory_size), Class::ImageSize, "ResourceMeta/r.memory_size");
+                    f(Slot::Count(&mut r.tasks), Class::Count, "ResourceMeta/r.tasks");
                     for t in r.tasks.iter_mut() {
-                        f(Slot::U32(&mut t.name_idx), Class::StrIdx);
-                        f(Slot::U32(&mut t.priority), Class::Other);
-                        f(Slot::I64(&mut t.interval_nanos), Class::Other);
-                        f(Slot::Opt(&mut t.single_name_idx), Class::StrIdx);
-                        visit_u32s(&mut t.program_name_idx, Class::StrIdx, f);
-                        visit_u32s(&mut t.fb_ref_idx, Class::RefIdx, f);
+                        f(Slot::U32(&mut t.name_idx), Class::StrIdx, "ResourceMeta/t.name_idx");
+                        f(Slot::U32(&mut t.priority), Class::Other, "ResourceMeta/t.priority");
+                        f(Slot::I64(&mut t.interval_nanos), Class::Other, "ResourceMeta/t.interval_nanos");
+                        f(Slot::Opt(&mut t.single_name_idx), Class::StrIdx, "ResourceMeta/t.single_name_idx");
+                        visit_u32s(&mut t.program_name_idx, Class::StrIdx, "res/programs.len", "res/program_name_idx", f);
+                        visit_u32s(&mut t.fb_ref_idx, Class::RefIdx, "res/fb_refs.len", "res/fb_ref_idx", f);
                     }
                 }
             }
             SectionData::IoMap(io) => {
-                f(Slot::Count(&mut io.bindings), Class::Count);
+                f(Slot::Count(&mut io.bindings), Class::Count, "IoMap/io.bindings");
                 for b in io.bindings.iter_mut() {
-                    f(Slot::U32(&mut b.address_str_idx), Class::StrIdx);
-                    f(Slot::U32(&mut b.ref_idx), Class::RefIdx);
-                    f(Slot::Opt(&mut b.type_id), Class::TypeIdx);
+                    f(Slot::U32(&mut b.address_str_idx), Class::StrIdx, "IoMap/b.address_str_idx");
+                    f(Slot::U32(&mut b.ref_idx), Class::RefIdx, "IoMap/b.ref_idx");
+                    f(Slot::Opt(&mut b.type_id), Class::TypeIdx, "IoMap/b.type_id");
                 }
             }
             SectionData::DebugMap(dm) => {
-                f(Slot::Count(&mut dm.entries), Class::Count);
+                f(Slot::Count(&mut dm.entries), Class::Count, "DebugMap/dm.entries");
                 for e in dm.entries.iter_mut() {
-                    f(Slot::U32(&mut e.pou_id), Class::PouId);
-                    f(Slot::U32(&mut e.code_offset), Class::CodeOff);
-                    f(Slot::U32(&mut e.file_idx), Class::DebugStrIdx);
-                    f(Slot::U32(&mut e.line), Class::Other);
-                    f(Slot::U32(&mut e.column), Class::Other);
-                    f(Slot::U8(&mut e.kind), Class::Other);
+                    f(Slot::U32(&mut e.pou_id), Class::PouId, "DebugMap/e.pou_id");
+                    f(Slot::U32(&mut e.code_offset), Class::CodeOff, "DebugMap/e.code_offset");
+                    f(Slot::U32(&mut e.file_idx), Class::DebugStrIdx, "DebugMap/e.file_idx");
+                    f(Slot::U32(&mut e.line), Class::Other, "DebugMap/e.line");
+                    f(Slot::U32(&mut e.column), Class::Other, "DebugMap/e.column");
+                    f(Slot::U8(&mut e.kind), Class::Other, "DebugMap/e.kind");
                 }
             }
             SectionData::VarMeta(vm) => {
-                f(Slot::Count(&mut vm.entries), Class::Count);
+                f(Slot::Count(&mut vm.entries), Class::Count, "VarMeta/vm.entries");
                 for e in vm.entries.iter_mut() {
-                    f(Slot::U32(&mut e.name_idx), Class::StrIdx);
-                    f(Slot::U32(&mut e.type_id), Class::TypeIdx);
-                    f(Slot::U32(&mut e.ref_idx), Class::RefIdx);
-                    f(Slot::U8(&mut e.retain), Class::Other);
-                    f(Slot::Opt(&mut e.init_const_idx), Class::ConstIdx);
+                    f(Slot::U32(&mut e.name_idx), Class::StrIdx, "VarMeta/e.name_idx");
+                    f(Slot::U32(&mut e.type_id), Class::TypeIdx, "VarMeta/e.type_id");
+                    f(Slot::U32(&mut e.ref_idx), Class::RefIdx, "VarMeta/e.ref_idx");
+                    f(Slot::U8(&mut e.retain), Class::Other, "VarMeta/e.retain");
+                    f(Slot::Opt(&mut e.init_const_idx), Class::ConstIdx, "VarMeta/e.init_const_idx");
                 }
             }
             SectionData::RetainInit(ri) => {
-                f(Slot::Count(&mut ri.entries), Class::Count);
+                f(Slot::Count(&mut ri.entries), Class::Count, "RetainInit/ri.entries");
                 for e in ri.entries.iter_mut() {
-                    f(Slot::U32(&mut e.ref_idx), Class::RefIdx);
-                    f(Slot::U32(&mut e.const_idx), Class::ConstIdx);
+                    f(Slot::U32(&mut e.ref_idx), Class::RefIdx, "RetainInit/e.ref_idx");
+                    f(Slot::U32(&mut e.const_idx), Class::ConstIdx, "RetainInit/e.const_idx");
                 }
             }
             SectionData::PouBodies(_) | SectionData::Raw(_) => {}
@@ -635,9 +635,29 @@ pub fn visit(m: &mut BytecodeModule, f: &mut Visitor<'_>) {
     }
 }
 
+/// Pick a slot: first a *site* (a field of the format, e.g. "RefTable/name_idx") uniformly, then one
+/// of its occurrences, so that rarely occurring fields are mutated as often as frequent ones.
+pub fn pick_slot(rng: &mut Rng, m: &mut BytecodeModule, only: Option<&dyn Fn(Class) -> bool>) -> Option<usize> {
+    let mut by_site: std::collections::BTreeMap<&'static str, Vec<usize>> = Default::default();
+    let mut i = 0;
+    visit(m, &mut |_, class, site| {
+        if only.map(|p| p(class)).unwrap_or(true) {
+            by_site.entry(site).or_default().push(i);
+        }
+        i += 1;
+    });
+    if by_site.is_empty() {
+        return None;
+    }
+    let sites: Vec<&&'static str> = by_site.keys().collect();
+    let site = **rng.pick(&sites);
+    let slots = &by_site[site];
+    Some(slots[rng.below(slots.len() as u64) as usize])
+}
+
 pub fn count_slots(m: &mut BytecodeModule) -> usize {
     let mut n = 0;
-    visit(m, &mut |_, _| n += 1);
+    visit(m, &mut |_, _, _| n += 1);
     n
 }
 
@@ -687,6 +707,18 @@ pub fn hostile_u32(rng: &mut Rng, class: Class, cur: u32, sz: &Sizes) -> u32 {
         Class::ImageSize => 1 << 24,
         _ => cur,
     };
+    // index spaces: the boundary `len` (first invalid value) and its neighbours get half of the mass
+    if matches!(
+        class,
+        Class::StrIdx | Class::DebugStrIdx | Class::TypeIdx | Class::ConstIdx | Class::RefIdx | Class::CodeOff | Class::CodeLen | Class::ImageSize
+    ) && rng.chance(1, 2)
+    {
+        return match rng.below(10) {
+            0..=5 => len,
+            6 | 7 => len.wrapping_sub(1),
+            _ => len.wrapping_add(1),
+        };
+    }
     let mut cands = vec![
         0,
         1,
@@ -741,11 +773,11 @@ pub fn mutate_field(rng: &mut Rng, m: &mut BytecodeModule) -> &'static str {
         return "none";
     }
     let sz = sizes(m);
-    let k = rng.below(n as u64) as usize;
+    let k = if rng.chance(3, 4) { pick_slot(rng, m, None).unwrap_or(0) } else { rng.below(n as u64) as usize };
     let mut i = 0;
     let mut what = "none";
     let mut rng2 = rng.clone();
-    visit(m, &mut |slot, class| {
+    visit(m, &mut |slot, class, _site| {
         if i == k {
             what = match slot {
                 Slot::U8(v) => {
@@ -835,7 +867,7 @@ pub fn locate_slot(m: &BytecodeModule, k: usize) -> Option<(usize, usize, Class)
     let mut i = 0;
     let mut width = 0;
     let mut cls = Class::Other;
-    visit(&mut m2, &mut |slot, class| {
+    visit(&mut m2, &mut |slot, class, _site| {
         if i == k {
             cls = class;
             width = match slot {
@@ -965,11 +997,15 @@ pub fn mutate_bytes(rng: &mut Rng, m: &BytecodeModule, bytes: &mut Vec<u8>) -> &
             return "none";
         }
         // counts and kinds are only reachable here: prefer them
-        let mut k = rng.below(n as u64) as usize;
-        if rng.chance(2, 3) {
+        let mut k = if rng.chance(1, 2) { pick_slot(rng, &mut mm, None).unwrap_or(0) } else { rng.below(n as u64) as usize };
+        if rng.chance(1, 2) {
+            if let Some(s) = pick_slot(rng, &mut mm, Some(&|c| matches!(c, Class::Count | Class::Kind))) {
+                k = s;
+            }
+        } else if rng.chance(1, 3) {
             let mut wanted = Vec::new();
             let mut i = 0;
-            visit(&mut mm, &mut |_, class| {
+            visit(&mut mm, &mut |_, class, _| {
                 if matches!(class, Class::Count | Class::Kind) {
                     wanted.push(i);
                 }
@@ -1022,6 +1058,15 @@ pub fn mutate_bytes(rng: &mut Rng, m: &BytecodeModule, bytes: &mut Vec<u8>) -> &
         let e = 24 + 12 * i;
         let off = get_u32(bytes, e + 4);
         let len = get_u32(bytes, e + 8);
+        if rng.chance(1, 4) {
+            // permute two entries of the table: still a valid container, sections in table order
+            let j = rng.below(nsec as u64) as usize;
+            for k in 0..12 {
+                bytes.swap(24 + 12 * i + k, 24 + 12 * j + k);
+            }
+            fix_crc(bytes);
+            return "table-swap-entries";
+        }
         match rng.below(4) {
             0 => {
                 let v = *rng.pick(&[0u16, 1, 2, 6, 9, 10, 12, 13, 255, 0x7777, 65535]);
